@@ -172,6 +172,7 @@ type RunResult struct {
 var keySan = regexp.MustCompile(`[^A-Za-z0-9_.-]+`)
 
 func runProperty(p *Prog, prop *Property, known KnownFile) *RunResult {
+	gProg = p
 	t0 := time.Now()
 	res := &RunResult{Info: map[string]any{}, LoadSecs: p.LoadSecs, NumFuncs: len(p.allFns), NumPkgs: len(p.Roots)}
 	if prop.NeedCG {
